@@ -35,6 +35,10 @@ def configs(tier, seed):
               events=big, off_season=True, lead=12, irr={"method": 5, "kw": {"depth": 4, "AppEff": 80, "WetSurf": 50, "MaxIrrSeason": 150}}),
             S("Barley", "ClayLoam", seed=seed + 18, events=big, field={"curve_number_adj": True, "curve_number_adj_pct": 25, "mulches": True, "mulch_pct": 60, "f_mulch": 0.7},
               gw={"water_table": "Y", "dates": ["2001/04/20", "2001/08/01"], "values": [1.1, 0.7]}, irr={"method": 1, "kw": {"SMT": [40, 55, 70, 35], "MaxIrr": 12, "AppEff": 75}})]
+    # inputs handed over as numpy arrays (values read from a file): percentages of TAW by layer and by depth, numeric contents, thresholds
+    out += [S("Soybean", seed=seed + 20, soil_spec=L.LAYERED_SOILS["two_layer"], iwc={"wc_type": "Pct", "value": [40, 70], "depth_layer": [1, 2], "_as_array": True}),
+            S("Tomato", "Loam", seed=seed + 21, iwc={"wc_type": "Pct", "method": "Depth", "value": [80, 35], "depth_layer": [0.2, 0.9], "_as_array": True}),
+            S("Barley", "SandyLoam", seed=seed + 22, iwc={"wc_type": "Num", "value": [0.17], "depth_layer": [1], "_as_array": True})]
     # a share of the pairwise covering array over the configuration dimensions
     out += L.pairwise_cases(seed, part=(seed + 7) % 26, parts=26) if tier != "thorough" else L.pairwise_cases(seed, part=seed % 3, parts=3)
     if tier == "thorough":
